@@ -8,7 +8,6 @@ import (
 	"os"
 	"sort"
 	"strings"
-	"time"
 
 	lz4 "github.com/pierrec/lz4/v4"
 	"github.com/pierrec/lz4/v4/verifsched"
@@ -608,34 +607,33 @@ func init() {
 			if v := os.Getenv("VERIF_BOUND"); v != "" {
 				fmt.Sscan(v, &bound)
 			}
-			all := c08Scenarios(c.Thorough())
-			for si, sc := range all {
+			var scs []*Scenario
+			for _, sc := range c08Scenarios(c.Thorough()) {
 				if only := os.Getenv("VERIF_ONLY"); only != "" && !strings.HasPrefix(sc.Name, only) {
 					continue
 				}
-				t0 := time.Now()
-				b := bound
-				if strings.HasPrefix(sc.Name, "W5") || strings.HasPrefix(sc.Name, "R3") || strings.HasPrefix(sc.Name, "R4") || strings.HasPrefix(sc.Name, "R5") || sc.Name == "R6" || sc.Name == "R7" {
-					b-- // fault families (many scenarios) and the two-frame reuse scenario: one bound lower
-				}
-				if sc.Name == "R7" {
-					b-- // the two-stream mid-Reset scenario is the largest: one more bound lower
-				}
-				st := exploreScenarioDL(c, sc, b, scenarioDeadline(c, si, len(all)))
-				c.Add("ms_"+sc.Name, time.Since(t0).Milliseconds())
-				if c.Shard == 0 {
-					c.Sample(map[string]interface{}{"scenario": sc.Name, "bound_completed": st.BoundDone, "max_choice_points": st.MaxPoints, "threads": st.MaxThreads})
-				}
+				scs = append(scs, sc)
 			}
+			exploreBoundsFirst(c, scs, func(sc *Scenario) int {
+				b := bound
+				switch {
+				case sc.Name == "R7":
+					b -= 2 // the two-stream mid-Reset scenario is the largest
+				case strings.HasPrefix(sc.Name, "W5"), strings.HasPrefix(sc.Name, "R3"), strings.HasPrefix(sc.Name, "R4"), strings.HasPrefix(sc.Name, "R5"), sc.Name == "R6":
+					b-- // fault families (many scenarios) and the two-frame reuse scenario
+				}
+				if b < 0 {
+					b = 0
+				}
+				return b
+			})
 		},
 		Finalize: func(cov map[string]interface{}, p *ev.Partial) {
-			cov["states"] = p.Counters["transitions"] + 1
+			cov["states"] = p.Counters["distinct_states"] + 1
 			cov["transitions"] = p.Counters["transitions"]
 			cov["traces_validated_against_impl"] = p.Counters["executions"]
-			cov["distinct_nontrivial"] = p.Counters["executions_with_2+_enabled_threads"]
-			cov["evaluations"] = p.Counters["executions"]
 			cov["preemption_bound_completed_per_scenario"] = boundsCompleted(p)
-			cov["explanation"] = "stateless search: states = scheduler states visited along all executions (one per visible-operation step, not deduplicated); every execution runs the real code, so every trace is an implementation trace"
+			cov["explanation"] = "states = distinct global state keys reached at choice points at the highest preemption bound (summed over scenarios and shards; a state re-reached with at least as many preemptions used is not re-expanded); transitions = visible-operation steps executed; every execution runs the real code, so every trace is an implementation trace"
 		},
 		Replay: func(c *ev.Ctx) { replayScenario(c, c08Scenarios(true)) },
 	})
